@@ -17,6 +17,8 @@ import z3
 
 from .extract import ClassInfo, FuncInfo, Repo
 from .logic import Logic
+from .exprs import VExpr, VESeq, VDist
+from . import exprs
 from .values import (freeze, NONE, OutOfSubset, V, VBool, VComp, VDict, VFam, VFunc, VGraph, VInt, VModule, VNode, VNone,
                      VNx, VObj, VOpaque, VPos, VSeq, VSet, VStr, VTuple)
 
@@ -282,8 +284,10 @@ class Exec:
             return L.exists(1, lambda x: v.mem(x))
         if isinstance(v, VNx):
             return L.exists(1, lambda x: v.N(x))
-        if isinstance(v, (VNode, VGraph, VObj, VFunc)):
+        if isinstance(v, (VNode, VGraph, VObj, VFunc, VExpr, VDist)):
             return L.T()
+        if isinstance(v, VESeq):
+            return L.Not(exprs.theory(self).is_nil(v.t))
         if isinstance(v, VInt):
             return v.t != 0
         if isinstance(v, VStr):
@@ -955,15 +959,26 @@ class Exec:
             return self.lib.get_attr(self, base, e.attr)
         if isinstance(e, ast.Tuple) or isinstance(e, ast.List):
             items = []
+            eparts = []
             for x in e.elts:
                 if isinstance(x, ast.Starred):
                     sv = self.ev(x.value)
                     if isinstance(sv, VTuple):
                         items += sv.items
+                        eparts += [("e", i.t) for i in sv.items if isinstance(i, VExpr)]
+                    elif isinstance(sv, VESeq):
+                        eparts.append(("s", sv.t))
+                        items.append(sv)
                     else:
                         raise OutOfSubset("star-splat of a symbolic collection")
                 else:
-                    items.append(self.ev(x))
+                    v1 = self.ev(x)
+                    items.append(v1)
+                    if isinstance(v1, VExpr):
+                        eparts.append(("e", v1.t))
+            if items and all(isinstance(i, (VExpr, VESeq)) for i in items) and any(isinstance(i, VESeq) for i in items) or (
+                    items and all(isinstance(i, VExpr) for i in items) and isinstance(e, ast.Tuple) and getattr(self, "expr_tuples", False)):
+                return VESeq(exprs.theory(self).seq_of(eparts))
             if isinstance(e, ast.List) and not items:
                 s = VSet(_false_pred, kind="list")
                 s.known_empty = True
@@ -1055,6 +1070,15 @@ class Exec:
         """{elt for targets in iter if conds ...}: nested exploration of the element expression."""
         L = self.L
         kind = "list" if isinstance(e, ast.ListComp) else ("set" if isinstance(e, ast.SetComp) else "gen")
+        if len(e.generators) == 1 and not isinstance(e, ast.SetComp):
+            try:
+                src0 = self.ev(e.generators[0].iter)
+            except OutOfSubset:
+                src0 = None
+            if isinstance(src0, VTuple) and src0.items and all(isinstance(i, VExpr) for i in src0.items):
+                src0 = exprs.to_eseq(self, src0)
+            if isinstance(src0, VESeq):
+                return exprs.eseq_comprehension(self, e, src0)
         outer_env = self.frames[-1].env
         results = []
 
